@@ -108,3 +108,18 @@ class Pipe(_io.TextIOBase):
 
     def tell(self):
         raise _io.UnsupportedOperation("underlying stream is not seekable")
+
+
+def non_ascii(atoms):
+    """labels and coefficient comments as people write them (Greek letters, the angstrom and degree signs): edits `atoms` in
+    place; equal labels stay equal, different ones stay different"""
+    import numpy as np
+    suffix = ["\u03b1", "\u03b2", "\u2032", "\u00e9"]
+    new = [(str(l) + suffix[sum(ord(c) for c in str(l)) % 4]) if str(l) else str(l) for l in atoms.atom_type_labels]
+    atoms.atom_type_labels = np.array(new) if isinstance(atoms.atom_type_labels, np.ndarray) else new
+    for name in ["pair_coeffs", "bond_type_coeffs", "angle_type_coeffs", "dihedral_type_coeffs", "improper_type_coeffs"]:
+        tab = getattr(atoms, name)
+        if len(tab):
+            new = [str(x) + (" 1.09\u00c5" if "#" in str(x) else " # 109.5\u00b0") for x in tab]
+            setattr(atoms, name, np.array(new) if isinstance(tab, np.ndarray) else new)
+    return atoms
